@@ -242,7 +242,14 @@ def expand(item, acc: core.Acc, tier):
                 ok = False
     acc.nontrivial(m.key())
     acc.sample({"history": hist, "op": [c, kind], "sql": sql, "observed": got, "views": obs}, cap=3)
-    return m.key() if ok else None
+    if not ok:
+        return None
+    # A transition that does not change the model state (COMMIT/ROLLBACK without a transaction, a failing statement)
+    # must not change the implementation either. State hidden from the model (e.g. a flag shared between
+    # connections) would make such a step matter for what follows, so the step is kept as part of the state key:
+    # the successor is explored again "after a no-op by <connection>".
+    noop = kind in ("commit", "rollback", "commit()", "rollback()", "fail") and pre_tx[c] == "no_tx" or kind == "fail"
+    return (m.key(), (c, kind) if noop else None)
 
 
 def run(ctx: core.Ctx):
@@ -256,10 +263,10 @@ def run(ctx: core.Ctx):
     )
     ctx.assumptions = ["writes of the two connections never conflict (different tables)", "DuckDB MVCC is the trusted base for visibility"]
     m0 = Model()
-    seen = {m0.key()}
+    seen = {(m0.key(), None)}
     frontier = [[]]
     d = 0
-    cap = 2500 if ctx.quick else 40000
+    cap = 9000 if ctx.quick else 60000
     capped = False
     while frontier and d < depth:
         items = []
